@@ -12,8 +12,67 @@ import (
 // Locker is sync.Locker.
 type Locker = sync.Locker
 
-// Pool is passed through: which buffer a Pool hands out is not observable.
-type Pool = sync.Pool
+// ModelPools switches Pool from pass-through to the modelled pool below. A harness sets it before its executions
+// start (never during one). Pass-through is the default: in code that uses a pooled item only between its Get and its
+// Put, which item a Pool hands out is not observable, and every Get/Put as a scheduling point would multiply the
+// schedules of the scenarios that are not about pools.
+var ModelPools bool
+
+// Pool replaces sync.Pool. Modelled: a LIFO list (Get hands out the item put back last: the worst case for a caller
+// that still uses an item it has put back, and what the per-P cache of the real Pool does on one P) with a scheduling
+// point in front of Get and Put AND one after Put — whatever the caller does after Put is a step of its own, so
+// another thread can take the item and write to it in between. The list is emptied between executions.
+type Pool struct {
+	New func() any
+
+	n     sync.Pool
+	mu    sync.Mutex
+	epoch uint64
+	items []any
+}
+
+func (p *Pool) modelled() bool { return ModelPools && vrt.Epoch() != 0 }
+
+func (p *Pool) Get() any {
+	if !p.modelled() {
+		if x := p.n.Get(); x != nil {
+			return x
+		}
+		if p.New != nil {
+			return p.New()
+		}
+		return nil
+	}
+	vrt.Access(p)
+	p.mu.Lock()
+	if e := vrt.Epoch(); e != p.epoch {
+		p.epoch, p.items = e, nil
+	}
+	var x any
+	if n := len(p.items); n > 0 {
+		x, p.items = p.items[n-1], p.items[:n-1]
+	}
+	p.mu.Unlock()
+	if x == nil && p.New != nil {
+		x = p.New()
+	}
+	return x
+}
+
+func (p *Pool) Put(x any) {
+	if !p.modelled() {
+		p.n.Put(x)
+		return
+	}
+	vrt.Access(p)
+	p.mu.Lock()
+	if e := vrt.Epoch(); e != p.epoch {
+		p.epoch, p.items = e, nil
+	}
+	p.items = append(p.items, x)
+	p.mu.Unlock()
+	vrt.Access(p)
+}
 
 // Mutex replaces sync.Mutex.
 type Mutex struct {
